@@ -12,7 +12,7 @@ CHECKS = {
 }
 CHECKS["C17"] = dict(
    technique="reference-model monitor: exhaustive operand-pair comparison with carry-less reference arithmetic; RS histories checked by root evaluation; cache-invariant hook evaluated under the cache's own lock",
-   text="Exploration, exhaustive for the finite part: all operand pairs of all 7 constructed fields (1.8e7 operand pairs: products both ways, divisions, inverses) against table-free reference arithmetic; all triples of the fields up to 256 elements for associativity (thorough; sampled in quick and for GF(1024)/GF(4096)); random/structured polynomials; RS encoder histories with check counts 1..600 in ascending/descending/random/repeated order, verified by evaluating data||check at the required roots, with the verif hook asserting the generator-polynomial cache invariant under the lock.",
+   text="Exploration, exhaustive for the finite part: all operand pairs of all 7 constructed fields (1.8e7 operand pairs: products both ways, divisions, inverses) against table-free reference arithmetic; all triples of the fields up to 256 elements for associativity (thorough; sampled in quick and for GF(1024)/GF(4096)); random/structured polynomials; RS encoder histories with check counts 0..600 in ascending/descending/random/repeated order, verified by evaluating data||check at the required roots, with the verif hook asserting the generator-polynomial cache invariant under the lock.",
    note="trusted: shift-and-xor reference arithmetic in refdec/gf.go; don't-care: division by zero, Invers(0), zero check symbols",
    ref="C17")
 CHECKS["C05"] = dict(
